@@ -548,6 +548,17 @@ TranslateEquation ==
     /\ k' = k + 1 /\ UNCHANGED <<item, pc, env>>
 
 Rejects(side) == \E i \in DOMAIN side : side[i][1].st = "raise"
+Bag(s) == [x \in {s[i] : i \in DOMAIN s} |-> Cardinality({i \in DOMAIN s : s[i] = x})]
+
+(* C23 on the model: the generator raises exactly for the programs that violate IndexOK *)
+RejectsIffIndexBadAtDone ==
+    ~HasEmptySlice(P0) => \A i \in DOMAIN decl : (decl[i][1].st = "raise") <=> (gen[i][1].st = "raise")
+(* C11 on the model: for every translated equation and every point where the meaning is defined,
+   the lowered form has the same rows (as a bag: the order inside one equation is not prescribed) *)
+GenValueAgreesAtDone ==
+    \A i \in DOMAIN decl : \A t \in Pts :
+        (decl[i][t].st = "ok" /\ gen[i][t].st # "raise" /\ \A j \in DOMAIN decl[i][t].d : ~IsUnd(decl[i][t].d[j]))
+            => (gen[i][t].st = "ok" /\ Bag(gen[i][t].d) = Bag(decl[i][t].d))
 PtDefined(t) == \A i \in DOMAIN decl : decl[i][t].st = "ok" /\ \A j \in DOMAIN decl[i][t].d : ~IsUnd(decl[i][t].d[j])
 DefinedPts == SelectSeq(<<1, 2, 3, 4>>, PtDefined)
 
@@ -566,29 +577,26 @@ Expect ==
                           dae  |-> [i \in 1..NE |-> decl[i][t].d],
                           init |-> [i \in 1..(Len(decl) - NE) |-> decl[NE + i][t].d]]]]
 
+(* what the operational model predicts for this program (under the switches of the cfg): does generation
+   raise, the residual rows in veccat order at the defined points, and the TLC verdict of the invariants *)
+ModelSide ==
+    [raises |-> Rejects(gen),
+     rows   |-> [j \in DOMAIN DefinedPts |-> [i \in DOMAIN gen |-> gen[i][DefinedPts[j]].d]],
+     ok     |-> [i \in DOMAIN gen |-> \A t \in Pts : gen[i][t].st # "err"],
+     agrees |-> RejectsIffIndexBadAtDone /\ GenValueAgreesAtDone]
+
 (* exitClass: the translated equations become model.equations / initial_equations; the oracle line is printed *)
 Finish == /\ pc = "translate" /\ k = Len(AllEqs) /\ pc' = "done" /\ UNCHANGED <<item, k, decl, gen, env>>
-          /\ PrintT(<<"PROG", ToJson([prog |-> P0, tags |-> TagsOf(item), expect |-> Expect, genrejects |-> Rejects(gen)])>>)
+          /\ PrintT(<<"PROG", ToJson([prog |-> P0, tags |-> TagsOf(item), expect |-> Expect, model |-> ModelSide])>>)
 
 Next == TranslateEquation \/ Finish
 Spec == Init /\ [][Next]_vars
 
 -----------------------------------------------------------------------------
-(* invariants: the property on the specification itself *)
-Bag(s) == [x \in {s[i] : i \in DOMAIN s} |-> Cardinality({i \in DOMAIN s : s[i] = x})]
-
-(* family definitions are well typed *)
-WellTyped == pc = "done" => \A i \in DOMAIN decl : \A t \in Pts : decl[i][t].st # "err"
-
-(* C23 on the model: the generator raises exactly for the programs that violate IndexOK *)
-RejectsIffIndexBad == (pc = "done" /\ ~HasEmptySlice(P0)) => \A i \in DOMAIN decl : (decl[i][1].st = "raise") <=> (gen[i][1].st = "raise")
-
-(* C11 on the model: for every translated equation and every point where the meaning is defined,
-   the lowered form has the same rows (as a bag: the order inside one equation is not prescribed) *)
-GenValueAgrees ==
-    pc = "done" => \A i \in DOMAIN decl : \A t \in Pts :
-        (decl[i][t].st = "ok" /\ gen[i][t].st # "raise" /\ \A j \in DOMAIN decl[i][t].d : ~IsUnd(decl[i][t].d[j]))
-            => (gen[i][t].st = "ok" /\ Bag(gen[i][t].d) = Bag(decl[i][t].d))
+(* invariants: the property on the specification itself (checked by TLC in the *intended* configs) *)
+WellTyped == pc = "done" => \A i \in DOMAIN decl : \A t \in Pts : decl[i][t].st # "err"     \* family definitions are well typed
+RejectsIffIndexBad == pc = "done" => RejectsIffIndexBadAtDone
+GenValueAgrees     == pc = "done" => GenValueAgreesAtDone
 
 (* sanity theorems of the reference semantics the property relies on (Eval_sanity.cfg) *)
 SanityIfEq ==   \* an if-equation is the if-expression of its residuals
